@@ -224,6 +224,20 @@ def gen_cases(ctx, n_sh, n_sk):
       shapes.append(s)
     cases.append(dict(cfg=c, shapes=shapes, T=T, hist=cy.get("hist"), seed=rng.next(),
                       lr_pows=[rng.choice([-3, -2, -1, 1, 2, 3])]))
+  # embedding-style histories (one row per step) with refresh frequencies above 1: on an off step a row
+  # gets its first gradient while the stale covariance still treats it as zero, so the second-order
+  # direction of that leaf is exactly zero and the documented update is zero (added after a seeded
+  # change that handed such a leaf the raw graft step was missed)
+  for graft, sfreq, pfreq in (("sgd", 2, 2), ("rmsprop", 1, 2), ("sgd", 2, 1)):
+    base = dict(cases[0]["cfg"])
+    base.update(so="shampoo", block=8, merge=2, sfreq=sfreq, pfreq=pfreq, beta2=1.0, graft=graft,
+                gbeta=0.9 if graft == "rmsprop" else 0.0, geps=1e-8, gstart=0, skip_rank1=True,
+                skip_dim_gt=4096, ema=False, nesterov=False, mdecay=0.0, wd=0.0, wd_after=True,
+                lr=0.25, lr_sched=None)
+    for k in ("ada_min_dim", "ada_param_scale", "ada_clip"):
+      base.pop(k, None)
+    cases.append(dict(cfg=base, shapes=[[5, 2], [3, 4]], T=4, hist="sparse_rows", seed=rng.next(),
+                      lr_pows=[1]))
   return cases
 
 
